@@ -116,6 +116,13 @@ end Float'
 
 namespace Val
 
+/-- integer tag types: an integer must be in the format's range, a BOOL becomes 0/1 -/
+def convInt (t : CipType) (v : Val) : Option Val :=
+  match v with
+  | .int i => (Bytes.packInt t.signed t.size i).map fun _ => .int i
+  | .bool b => some (.int (if b then 1 else 0))
+  | _ => none
+
 /-- Convert a request value to the canonical stored form of a tag of type `t`;
 `none` = `struct.pack` with the tag's format would raise (not representable). -/
 def conv (t : CipType) (v : Val) : Option Val :=
@@ -146,12 +153,7 @@ def conv (t : CipType) (v : Val) : Option Val :=
     match v with
     | .str s => if s.length < 65536 then some (.str s) else none
     | _ => none
-  | t =>   -- the eight integer types
-    let k := t.size
-    match v with
-    | .int i => (Bytes.packInt t.signed k i).map fun _ => .int i
-    | .bool b => some (.int (if b then 1 else 0))
-    | _ => none
+  | t => convInt t v   -- the eight integer types
 
 /-- canonical-form predicate: `v` is a possible stored value of a tag of type `t` -/
 def canon (t : CipType) (v : Val) : Bool := conv t v == some v
